@@ -307,6 +307,8 @@ type urlGen struct {
 	n    int            // last marker
 	cls  map[int]string // marker -> claimed class (tested references only)
 	leaf map[int]string // marker -> leaf
+
+	commaLeaf bool // the next references get a comma in their file name
 }
 
 func (ug *urlGen) ext(carrier string) string {
@@ -325,6 +327,10 @@ func (ug *urlGen) ext(carrier string) string {
 func (ug *urlGen) ref(cls, carrier string) string {
 	ug.n++
 	leaf := fmt.Sprintf("u%d%s", ug.n, ug.ext(carrier))
+	if ug.commaLeaf {
+		// CDN style file names carry commas; in a srcset only a comma followed by white space ends a candidate
+		leaf = fmt.Sprintf("u%d,w_400%s", ug.n, ug.ext(carrier))
+	}
 	if cls == "ctl" {
 		leaf = "\x01" + leaf
 	}
@@ -344,6 +350,8 @@ var urlDescW = []string{"320w", "640w", "1280w"}
 
 func (ug *urlGen) srcset(classes []string, desc, carrier string) string {
 	parts := []string{}
+	ug.commaLeaf = ug.g.rng.Intn(3) == 0
+	defer func() { ug.commaLeaf = false }()
 	for i, cls := range classes {
 		c := ug.ref(cls, carrier)
 		switch desc {
